@@ -4,7 +4,8 @@
 (* and set/list helpers (C13, C14) against the laws of ListSem.            *)
 (*                                                                         *)
 (* VERIF_TRACE is NDJSON.  Per element type, in this order:                *)
-(*  {"k":"case","id","t","wf","pool"}    the line SemCases exported        *)
+(*  {"k":"case","id","t","wf","pool"}    the line SemCases exported, pool   *)
+(*        extended to XPool(t) (ListPool) for leaf-like element types      *)
 (*  {"k":"eq", "id","form":"bin","m"}    observed derived Equal on pool^2  *)
 (*  {"k":"cmp","id","form":"bin","m"}    observed derived Compare          *)
 (*  {"k":"lbind","id","cls":[..]}        cls[i] = first pool index holding *)
@@ -19,7 +20,7 @@
 (* Every line is consumed; what the laws do not allow is RECORDED in bad:  *)
 (*  [l, id, op, law, fails = numbers of the rejected records of the line]. *)
 (***************************************************************************)
-EXTENDS DeriveSem, ListSem, Json, IOUtils
+EXTENDS ListPool, ListSem, Json, IOUtils
 
 Trace == ndJsonDeserialize(IOEnv.VERIF_TRACE)
 NL == Len(Trace)
@@ -67,7 +68,7 @@ ValComparable(ty) ==
     [] ty.k = "struct" -> \A i \in DOMAIN ty.fields : ValComparable(ty.fields[i].t)
     [] OTHER -> FALSE
 \* natural < exists: ordered basic kinds
-Natural == T.k = "basic" /\ T.b \notin {"bool", "complex128"}
+Natural == T.k = "basic" /\ T.b \notin {"bool", "complex64", "complex128"}
 
 (* the relations the laws are parameterised with, on identities (= pool    *)
 (* indices of class representatives)                                       *)
@@ -190,9 +191,9 @@ Viol(op, r) ==
 Case ==
   /\ IsObs("case")
   /\ eqm' = <<>> /\ cmpm' = <<>> /\ cls' = <<>> /\ keqm' = <<>> /\ lists' = <<>>
-  /\ IF Ev.wf /\ WellFormed(Ev.t) /\ Ev.pool = Pool(Ev.t)
+  /\ IF Ev.wf /\ WellFormed(Ev.t) /\ Ev.pool = XPool(Ev.t)
      THEN cur' = Ev /\ UNCHANGED bad
-     ELSE cur' = [Ev EXCEPT !.wf = FALSE] /\ Malformed("case: not the specification's Pool(t)")
+     ELSE cur' = [Ev EXCEPT !.wf = FALSE] /\ Malformed("case: not the specification's XPool(t)")
 
 EqObs ==
   /\ IsObs("eq")
